@@ -127,11 +127,13 @@ CLAIMED = {
             "Trimmed tessellation is not modelled (exact oracle test on rectangular polygonal trims only; spline trims untested); the whole-rectangle point-set tiling is not assembled into one theorem; file syntax and binary STL packing are oracle-only. "
             "F-15 was reported with a replay and fixed; F-01 and F-15b (container sample size) are recorded findings."),
     'C20': ("7/C20",
-            "Lean theorems (31) over any linearly ordered field: is_left = 2x2 determinant with sign meaning and affine covariance; wn_poly crossing rule, translation / reversal / start-vertex invariance; ray status characterised "
+            "Lean theorems (48) over any linearly ordered field: is_left = 2x2 determinant with sign meaning and affine covariance; convex_hull is CORRECT for every finite point list (vertices are input points, pairwise distinct, every input point is left-of-or-on every edge "
+            "of the closed hull, strictly convex counter-clockwise when it has >= 3 vertices; Andrew's scan invariant; degenerate inputs characterised); wn_poly crossing rule, translation / reversal / start-vertex invariance, counter >= 1 for a point strictly left of all edges and "
+            "= 0 for a point separated by a line (no convexity needed), for strictly convex polygons and points off the boundary True iff strictly inside with counter exactly 1 / 0, also on the output of convex_hull; ray status characterised "
             "(COLINEAR iff cross product below tol; with exact magnitude: INTERSECT iff line distance < tol, intersection identity p1 + t1 d1 = p2 + t2 d2, completeness, 2-D always coplanar); voxel in/out test = padded interval test, "
-            "frange termination and coverage, the grid covers the bounding box, filled iff some sampled point inside; find_ctrlpts = indices span-p..span which contain the support of the basis (Cox-de Boor local support). "
+            "frange termination, coverage and exact value list, the grid covers the bounding box, filled iff some sampled point inside; find_ctrlpts = indices span-p..span which contain the support of the basis (Cox-de Boor local support). "
             "Correspondence and exact oracle on ray.intersect, linalg.is_left / wn_poly / convex_hull, voxelize.voxelize, operations.find_ctrlpts plus frange / grid / in-out helpers.",
-            "Hull containment / convexity and wn = inside are oracle-checked only; ray theorems assume the exact square root (the rounded sqrt is passed to the model as an input). Open finding F-20a: use_cubes=True on a flat bounding box never returns."),
+            "wn_poly = inside for arbitrary simple NON-convex polygons is not proved (only the two convexity-free halves); ray theorems assume the exact square root (the rounded sqrt is passed to the model as an input). Open finding F-20a: use_cubes=True on a flat bounding box never returns."),
     'C11': ("7/C11",
             "Lean theorems, for every degree, size and dimension, whenever lu_solve returns: collocation_interpolates / interpolateCurve_interpolates - the curve evaluated (span by linear search, A2.2/A3.1) at the i-th parameter is the i-th data point; "
             "interpolateSurface_interpolates - the two-pass surface interpolation passes through every data point Q[j+sv*i] at (u_i, v_j); parameters run 0..1, non-decreasing for non-negative chord lengths (strictly increasing for distinct consecutive points); "
@@ -141,7 +143,7 @@ CLAIMED = {
             "The model (parametrisation with chord lengths as inputs, averaged knot vectors, collocation matrix, curve and two-pass surface interpolation, least-squares curve approximation via the normal equations) "
             "is tied to fitting.interpolate_curve / interpolate_surface / approximate_curve by exact correspondence (the sqrt doubles are recomputed by the harness and passed as exact values); the same data is also fitted twice in one process with different settings.",
             "Hypothesis, not proved: the collocation matrix / N^T N have non-zero Doolittle pivots (Schoenberg-Whitney; the harness checks lu_solve returns on every generated data set). The minimised sum runs over the interior data points (objective of Eq. 9.63); "
-            "the version for the EVALUATED curve needs positive chord lengths; the interpolation knot vector is non-decreasing under invp*p*u_(n-2) <= 1 (invp is the double 1.0/p). approximate_surface is not modelled (oracle only: corner interpolation)."),
+            "the version for the EVALUATED curve (approximateCurve_least_squares, using C03's basis_function_one = Cox-de Boor) needs positive chord lengths; the interpolation knot vector is non-decreasing under invp*p*u_(n-2) <= 1 (invp is the double 1.0/p). approximate_surface is not modelled (oracle only: corner interpolation)."),
     'C14': ("7/C14",
             "Lean theorems (25) over a token-level model (numbers are abstract tokens) of the smesh, vmesh (repaired), txt 1-D/2-D and csv files and of the dict form behind JSON (trims, delta, sense flags, containers): "
             "import o export = identity up to rational form (unit weights) and normalised knot vectors for every degree, size triple, net and container length; documented row/column order; evaluation invariant under the reader's "
@@ -159,11 +161,14 @@ CLAIMED = {
             "inside callees mid-mutator are not modelled; the field / cache vocabulary and 'a fill uses the current fields' are assumptions validated per step by the oracle; trims and expert setters are excluded. F-12a and F-12d were reported "
             "(failing all_paths_ok naming the operation + a concrete replay) and fixed."),
     'C03': ("7/C03",
-            "Lean theorems over the executable model (any degree, any non-decreasing knot function, any parameter, any ordered field): "
-            "linear span search returns the unique half-open interval; binary search (termination included) equals linear search under the tolerance hypothesis that F-17b violates (refuted without it by decide +kernel); A2.2 has p+1 non-negative values summing to 1 and equals the Cox-de Boor "
-            "recursion with local support; all-degrees table index theorem. Model tied to helpers.find_span_*/basis_function*/knotvector.* by exact "
-            "correspondence; binary search, A2.3/A2.4/A2.5 and the knot-vector utilities are covered by correspondence + exact oracle only (listed as partial in the evidence).",
-            "Also proved: the k-th derivative rows (k >= 1) of the basis-derivative table sum to zero and its zeroth row is A2.2 (for the spec-level model of A2.3). Not proved: A2.4 / A2.5 = Cox-de Boor and its derivatives (oracle + correspondence); knot-vector utilities (correspondence + oracle). F-17b is a recorded finding."),
+            "Lean theorems over the executable model (any degree, any non-decreasing knot function, any parameter, any ordered field): linear span search returns the unique half-open interval; binary search (termination included) equals linear search under the "
+            "tolerance hypothesis that F-17b violates (refuted without it by decide +kernel); A2.2 has p+1 non-negative values summing to 1 and equals the Cox-de Boor recursion with local support; all-degrees table index theorem; "
+            "basis_function_one (A2.4, literal model with its zero-detection branches) equals Cox-de Boor on the domain and the A2.2 entry (closed form incl. the two boundary special cases, closed end of clamped vectors, no division by zero ever fires); "
+            "basis_function_ders_one (A2.5, literal model) equals the k-th derivative column of the A2.3 specification table for order <= degree; the derivative rows of the table sum to 0 and row 0 is A2.2; "
+            "knot vector utilities: generate has the documented length, is sorted, passes check, has end multiplicities exactly p+1 (clamped) and the closed-form entries; check is true exactly for the right length without descent; normalize is the affine map onto [0,1], "
+            "strictly order preserving, idempotent; linspace spec. Model tied to helpers.find_span_* / basis_function* / basis_function_ders_one / knotvector.* by exact correspondence.",
+            "A2.3 (basis_function_ders) is modelled at specification level (derivatives of the unit-control-point curves); that the code's table equals it is the exact correspondence. A2.4 = Cox-de Boor is stated with the hypotheses U p <= u, U 0 < U (p+1) and the last-knot exception "
+            "(the code returns 1 for the last function at the last knot, the half-open definition gives 0; proved equal to the A2.2 entry there). A2.5 is proved for order <= degree on half-open spans. F-17b is a recorded finding."),
 }
 NOT_YET = {}
 for i in range(1, 21):
